@@ -44,7 +44,7 @@ if [ -n "$CHECKS" ]; then
   sed -i "s|routinator = { path = \"/repo\" }|routinator = { path = \"$WT\" }|" $HX/Cargo.toml
   for c in $CHECKS; do
     echo "== ./check $c against patched tree"
-    (cd /verif && RV_RUNID=seed$SLOT RV_HARNESS=$HX CARGO_TARGET_DIR=/tmp/seedhx_target_$SLOT RV_NO_EVIDENCE=1 ./check $c 2>&1 | tail -3)
+    (cd /verif && RV_RUNID=seed$SLOT RV_HARNESS=$HX CARGO_TARGET_DIR=/tmp/seedhx_target_$SLOT RV_NO_EVIDENCE=1 ./check $c 2>&1 | tail -12)
   done
 fi
 cd /; git -C /repo worktree remove --force $WT
